@@ -122,6 +122,25 @@ def find_calls(f, suffixes):
     return out
 
 
+def _reaches_rescoring(f, start):
+    """Is a call to score_position reachable from block `start` without taking a back edge (i.e. within the current iteration)?"""
+    dom = f.dominators()
+    seen, st = set(), [start]
+    while st:
+        b = st.pop()
+        if b in seen or b not in dom:
+            continue
+        seen.add(b)
+        t = f.term(b)
+        if t['k'] == 'call' and (f.callee_short(t) or '').endswith('score_position'):
+            return True
+        for s_ in f.succs(b):
+            if s_ in dom.get(b, ()):        # back edge
+                continue
+            st.append(s_)
+    return False
+
+
 def analyse(db, ctx, which, ids):
     """ids: mapping logical rule -> rule id for this property (unwrap, bound, formula, cmp, block, once, prefilter)."""
     f = get(db, which)
@@ -222,7 +241,15 @@ def analyse(db, ctx, which, ids):
         if t['k'] != 'switch' or t.get('discr_ty') != 'bool':
             continue
         de = R.at(bi).operand(t['discr'])      # recovered at the branch: a condition bound to a boolean variable first is seen through
-        rel = G.as_relation(de, True)
+        # orientation: the relation that holds on the edge that *keeps* the candidate (leads to the rescoring call within this
+        # iteration); `if d < t { continue }` keeps on the false edge, i.e. under d >= t.  Without a unique keeping edge: as written.
+        truth = True
+        f_tgt, t_tgt = (t['arms'][0][1], t['otherwise']) if len(t['arms']) == 1 and int(t['arms'][0][0]) == 0 else (None, None)
+        if f_tgt is not None and f_tgt != t_tgt:
+            kt, kf = _reaches_rescoring(f, t_tgt), _reaches_rescoring(f, f_tgt)
+            if kf and not kt:
+                truth = False
+        rel = G.as_relation(de, truth)
         if rel[0] in ('ge', 'gt', 'le', 'lt', 'eq', 'ne'):
             comps.append((rel[0], norm(rel[1]), norm(rel[2]), t['span']))
     for bi, t in f.calls():
